@@ -45,6 +45,10 @@ int main() {
       scanf("%255s %255s", a, b);
       auto dec = [](char* s) { if (!strcmp(s, "-")) { s[0] = 0; return; } size_t n = strlen(s) / 2; for (size_t i = 0; i < n; i++) { unsigned v; sscanf(s + 2 * i, "%2x", &v); s[i] = (char)v; } s[n] = 0; };
       dec(a); dec(b); printf("%d\n", h_wildcmp(a, b) != 0);
+    } else if (!strcmp(cmd, "wildbuf")) {   // raw buffers (hex), terminators and trailing bytes included
+      scanf("%255s %255s", a, b);
+      auto decb = [](char* s) { size_t n = strlen(s) / 2; for (size_t i = 0; i < n; i++) { unsigned v; sscanf(s + 2 * i, "%2x", &v); s[i] = (char)v; } s[n] = 0; };
+      decb(a); decb(b); printf("%d\n", h_wildcmp(a, b) != 0);
     } else if (!strcmp(cmd, "range")) {
       scanf("%255s", a); long n = h_range(a, out, 40); printf("%ld", n); for (long i = 0; i < n; i++) printf(" %ld", out[i]); printf("\n");
     } else {
